@@ -174,7 +174,77 @@ def contracts(s, fresh_builder, data, workdir, which):
                 bad.append(('lazy', f'lazy (thin={thin}) errors differ: {EL[:3]} vs {EE[:3]}')); break
         except lib as e: bad.append(('lazy', f'lazy validation raised {type(e).__name__}: {str(e)[:100]}'))
         except Exception as e: bad.append(('total', f'lazy: {type(e).__name__}: {str(e)[:120]}'))
+    if 'paths' in which: bad += paths_contract(s, res, errs)
     return [b for b in bad if b[0] in which]
+
+
+XSI_TYPE = '{http://www.w3.org/2001/XMLSchema-instance}type'
+IDENTITY_WORDS = ('xs:ID', 'duplicated value', 'not found for Xsd', 'IDREF', 'missing key field', 'found for Xsd')
+
+
+def paths_contract(s, res, full_errs):
+    """C20 on a corpus document: schema.find(path(e)) has the type of the declaration that governed e; the errors of a part selected by a
+    positional path are the errors of the whole document located in that part (identity-constraint errors, which relate nodes, set aside)"""
+    import xmlschema
+    from xmlschema import XMLSchemaException
+    bad = []
+    root = res.root; parent = {c: p for p in root.iter() for c in p}
+    uris = sorted({e.tag[1:].split('}')[0] for e in root.iter() if isinstance(e.tag, str) and e.tag[0] == '{'})
+    pfx = {u: f'n{i}' for i, u in enumerate(uris)}; nsm = {v: k for k, v in pfx.items()}
+
+    def step(e): return (pfx[e.tag[1:].split('}')[0]] + ':' + e.tag.split('}')[1]) if e.tag[0] == '{' else e.tag
+
+    def path_of(e, positional):
+        steps = []; x = e
+        while x is not None:
+            name = step(x); p = parent.get(x)
+            if positional and p is not None:
+                same = [c for c in p if c.tag == x.tag]
+                if len(same) > 1: name += f'[{same.index(x) + 1}]'
+            steps.append(name); x = p
+        return '/' + '/'.join(reversed(steps))
+    governing = {}
+
+    def hook(e, x): governing.setdefault(e, x); return False
+    try:
+        full = list(s.iter_errors(res, validation_hook=hook))
+    except XMLSchemaException: return bad
+    elems = [e for e in root.iter() if isinstance(e.tag, str)]
+    opaque = set()                                # subtrees whose governing type is not the declared one (xsi:type, alternatives) or reached through a wildcard
+    for e in elems:
+        p = parent.get(e); gov = governing.get(e)
+        if p in opaque or gov is None: opaque.add(e); continue
+        if XSI_TYPE in e.attrib or getattr(gov, 'alternatives', None): opaque.add(e)      # e itself is still found by its path; its children are not
+        if p is not None:
+            pg = governing.get(p)
+            declared = pg is not None and pg.type.is_complex() and any(x is gov or getattr(x, 'ref', None) is gov or x.name == gov.name or gov.name in [m.name for m in x.iter_substitutes()]
+                                                                        for x in pg.type.content.iter_elements() if hasattr(x, 'iter_substitutes'))
+            if not declared: opaque.add(e); continue
+        if p is not None and (XSI_TYPE in p.attrib or p in opaque): continue
+        try: found = s.find(path_of(e, False), nsm)
+        except Exception as x: bad.append(('paths', f'find({path_of(e, False)}) raised {type(x).__name__}')); continue
+        if found is None: bad.append(('paths', f'find({path_of(e, False)}) is None, the node was governed by {gov!r}')); continue
+        if found.type is not gov.type and not (found.name != gov.name and gov.name in [m.name for m in found.iter_substitutes()]):
+            bad.append(('paths', f'find({path_of(e, False)}) = {found!r} of type {found.type!r}, the node was governed by {gov!r} of type {gov.type!r}'))
+    ident = lambda r: any(w in (r or '') for w in IDENTITY_WORDS)
+    import re
+    # names inside a reason are spelled with the prefixes of the namespace map in use (the document's for the whole run, this harness's for the part)
+    norm = lambda e: (type(e).__name__, re.sub(r"(\{[^}]*\}|\b[A-Za-z_][\w.-]*:(?=[A-Za-z_]))", '', e.reason or ''))
+    for e in elems[1:40]:
+        if e in opaque and parent.get(e) in opaque: continue
+        depth = 0; x = e
+        while parent.get(x) is not None: x = parent[x]; depth += 1
+        if depth > 2: continue
+        p = path_of(e, True); sub = set(e.iter())
+        try: perrs = sorted(norm(x) for x in s.iter_errors(res, path=p, namespaces=nsm) if not ident(x.reason))
+        except XMLSchemaException as x: bad.append(('paths', f'iter_errors(path={p}) raised {type(x).__name__}: {str(x)[:80]}')); continue
+        except Exception as x: bad.append(('paths', f'iter_errors(path={p}) raised {type(x).__name__}')); continue
+        want = sorted(norm(x) for x in full if x.elem in sub and not ident(x.reason))
+        if perrs != want:
+            strip = lambda L: [r for r in L if 'unmapped prefix' not in r[1] and 'QName' not in r[1]]
+            if depth >= 2 and strip(perrs) == strip(want): bad.append(('paths', 'KNOWN:C20-partial-validation-ignores-intermediate-xmlns'))
+            else: bad.append(('paths', f'errors of the part {p}: {perrs[:2]} but the whole document has {want[:2]} there'))
+    return bad
 
 
 def eval_case(args):
@@ -196,6 +266,7 @@ FAMILY = {'C04': ('agree', 'entry points and modes agree on corpus documents and
           'C06': ('lazy', 'lazy validation gives the errors of the loaded document (class, path, order) on corpus documents and their mutations'),
           'C10': ('repeat', 'a second run and a freshly built schema give the same errors on corpus documents and their mutations'),
           'C11': ('total', 'only library exceptions escape validation, decoding and lazy validation of mutated corpus documents'),
+          'C20': ('paths', 'schema.find(path(e)) has the type of the governing declaration; the errors of a part selected by a positional path are the errors of the whole document located in it'),
           'C19': ('locate', 'every error path of a mutated corpus document selects exactly error.elem')}
 
 
